@@ -5,6 +5,8 @@ from __future__ import annotations
 from typing import TYPE_CHECKING, ClassVar, Generic, TypeVar, cast
 from warnings import warn
 
+import numpy as np
+
 from quansino.mc.canonical import Canonical
 from quansino.mc.contexts import DeformationContext
 from quansino.mc.criteria import CanonicalCriteria, IsobaricCriteria
@@ -131,6 +133,21 @@ class Isobaric(Canonical[MoveType, CriteriaType], Generic[MoveType, CriteriaType
         self.context.last_cell = self.atoms.get_cell()
 
         super().validate_simulation()
+
+    def save_state(self) -> None:
+        """
+        Save the current state and notify the moves when the accepted move changed the
+        cell.
+        """
+        cell_changed = not np.array_equal(
+            self.atoms.cell.array, np.asarray(self.context.last_cell)
+        )
+
+        super().save_state()
+
+        if cell_changed:
+            for move_storage in self.moves.values():
+                move_storage.move.on_cell_changed(self.atoms.cell)
 
     def revert_state(self) -> None:
         """
